@@ -125,6 +125,21 @@ pub mod gds21 {
     impl Default for GdsPath { fn default() -> (r: Self) ensures r.layer == 0, r.datatype == 0, r.xy@.len() == 0, r.width is None, r.path_type is None, r.begin_extn is None, r.end_extn is None, r.elflags is None, r.plex is None, r.properties@.len() == 0 { GdsPath { layer: 0, datatype: 0, xy: Vec::new(), width: None, path_type: None, begin_extn: None, end_extn: None, elflags: None, plex: None, properties: Vec::new() } } }
     impl Default for GdsTextElem { fn default() -> (r: Self) ensures r.layer == 0, r.texttype == 0, r.xy.x == 0, r.xy.y == 0, r.presentation is None, r.path_type is None, r.width is None, r.strans is None, r.elflags is None, r.plex is None, r.properties@.len() == 0 { GdsTextElem { string: String::new(), layer: 0, texttype: 0, xy: GdsPoint { x: 0, y: 0 }, presentation: None, path_type: None, width: None, strans: None, elflags: None, plex: None, properties: Vec::new() } } }
     impl Default for GdsStructRef { fn default() -> (r: Self) ensures r.xy.x == 0, r.xy.y == 0, r.strans is None, r.elflags is None, r.plex is None, r.properties@.len() == 0 { GdsStructRef { name: String::new(), xy: GdsPoint { x: 0, y: 0 }, strans: None, elflags: None, plex: None, properties: Vec::new() } } }
+//@ item gds21/src/data.rs :: struct GdsUnits
+//@ end
+    impl GdsUnits {
+//@ fn gds21/src/data.rs :: impl GdsUnits :: fn new
+//@   ret r
+//@   spec
+//|         ensures r.0 == num1, r.1 == num2,
+//@ end
+    }
+    /// R5: GdsLibrary reduced to name, units and structures (version, dates and the unsupported fields are not touched by the raw exporter)
+    pub struct GdsLibrary { pub name: String, pub units: GdsUnits, pub structs: Vec<GdsStruct> }
+    impl GdsLibrary {
+        #[verifier::external_body]
+        pub fn new(name: &String) -> (r: Self) ensures r.name@ == name@, r.structs@.len() == 0 { unimplemented!() }
+    }
     /// R5: GdsStruct without its dates (not read by the raw exporter); `new(name)` = that name, no elements
     pub struct GdsStruct { pub name: String, pub elems: Vec<GdsElement> }
     impl GdsStruct {
@@ -203,11 +218,19 @@ pub open spec fn sref_gds(g: gds21::GdsStructRef, inst: Instance) -> bool {
 //@ end
 // R5: the exporter without its `lib: &Library` field (only layer lookup uses it; that is outside the unit)
 //@ item layout21raw/src/gds.rs :: struct GdsExporter
-//@   sub R5 /GdsExporter<'lib>/ => GdsExporter
-//@   sub R5 /lib: &'lib Library,/ =>
+//@   sub R5 /lib: &'lib Library,/ => pub lib: &'lib Library,
 //@   sub R4 /\n    ctx:/ => \n    pub ctx:
 //@ end
-impl GdsExporter {
+//@ item layout21raw/src/data.rs :: enum Units
+//@   derive Debug, Clone, Copy
+//@ end
+/// R5: the raw Library reduced to the fields export_lib reads; `cells: PtrList<Cell>` as Vec<Ptr<Cell>>; borrowed as in the source
+pub struct Library { pub name: String, pub units: Units, pub cells: Vec<Ptr<Cell>> }
+/// ORACLE (C07, "unit mapping both ways"): GDSII UNITS = (database unit in user units, database unit in metres), user unit one micron
+pub open spec fn gds_units_of(u: Units) -> (f64, f64) {
+    match u { Units::Micro => (1.0f64, 1e-6f64), Units::Nano => (1e-3f64, 1e-9f64), Units::Angstrom => (1e-4f64, 1e-10f64), Units::Pico => (1e-6f64, 1e-12f64) }
+}
+impl<'lib> GdsExporter<'lib> {
 //@ fn layout21raw/src/gds.rs :: impl<'lib> GdsExporter<'lib> :: fn export_point
 //@   ret r
 //@   spec
@@ -504,7 +527,7 @@ impl GdsImporter {
 //|             }
 //@ end
 }
-impl GdsExporter {
+impl<'lib> GdsExporter<'lib> {
 //@ fn layout21raw/src/gds.rs :: impl<'lib> GdsExporter<'lib> :: fn export_instance
 //@   ret r
 //@   sub R6 /inst\.angle\.map\(\|a\| f64::from\(a\)\)/ => inst.angle
@@ -512,6 +535,26 @@ impl GdsExporter {
 //|     ensures r is Ok ==> final(self).ctx@ == old(self).ctx@ && sref_gds(r->Ok_0, *inst),
 //@   before /^        Ok\(gdsinst\)$/
 //|         proof { assert(self.ctx@ =~= old(self).ctx@); }
+//@ end
+    /// ASSUMED contract of export_cell (layout if present, else abstract, else nothing; not extracted: needs the abstract exporter)
+    #[verifier::external_body]
+    fn export_cell(&mut self, cell: &Cell) -> (r: LayoutResult<Option<gds21::GdsStruct>>)
+        ensures final(self).lib == old(self).lib, r is Ok ==> final(self).ctx@ == old(self).ctx@,
+    { unimplemented!() }
+//@ fn layout21raw/src/gds.rs :: impl<'lib> GdsExporter<'lib> :: fn export_lib
+//@   ret r
+//@   spec
+//|     ensures r is Ok ==> final(self).ctx@ == old(self).ctx@ && r->Ok_0.name@ == old(self).lib.name@
+//|         // the database unit of each raw length unit, with a one-micron user unit
+//|         && r->Ok_0.units.0 == gds_units_of(old(self).lib.units).0 && r->Ok_0.units.1 == gds_units_of(old(self).lib.units).1
+//|         && r->Ok_0.structs@.len() <= old(self).lib.cells@.len(),
+//@   after /self\.ctx\.push\(ErrorContext::Library\(self\.lib\.name\.clone\(\)\)\);/
+//|         let ghost c0 = self.ctx@;
+//|         proof { assert(c0.drop_last() =~= old(self).ctx@); }
+//@   loop 1 iter it
+//|             invariant self.lib == old(self).lib, self.ctx@ == c0, c0.len() > 0, c0.drop_last() == old(self).ctx@,
+//|                 gdslib.name@ == self.lib.name@, gdslib.units.0 == gds_units_of(self.lib.units).0, gdslib.units.1 == gds_units_of(self.lib.units).1,
+//|                 gdslib.structs@.len() <= it.index@, it.index@ <= self.lib.cells@.len(),
 //@ end
     /// model of GdsExporter::export_layerspec (reads the library's layer table): the pair's numbers, or an error if the layer or the purpose is not defined
     #[verifier::external_body]
